@@ -101,10 +101,16 @@ def check_file(chunks, independent, extra_calls):
         else:
             if labels.count('not_enough_sections') != 1:
                 fails.append(('past_the_end', 'next_section call %d on a file with %d markers: feedback %r' % (k, k_total, labels)))
+            if report.submission.main_code == text and report.submission.line_offsets.get(report.submission.main_file, 0) != 0:
+                fails.append(('offset_after_restore', 'past the last section the whole file is presented again, but its lines are '
+                              'still shifted by %r' % report.submission.line_offsets.get(report.submission.main_file)))
     try:
         stop_sections(report=report)
         if report.submission.main_code != text:
             fails.append(('restore', 'main code after stop_sections is not the original text'))
+        elif report.submission.line_offsets.get(report.submission.main_file, 0) != 0:
+            fails.append(('offset_after_restore', 'after stop_sections the whole file is back, but its lines are still shifted by %r'
+                          % report.submission.line_offsets.get(report.submission.main_file)))
     except Exception as e:
         fails.append(('restore', 'stop_sections raised %s' % type(e).__name__))
     # resolving right after separating (prologue active) must also restore the file
